@@ -183,4 +183,80 @@ theorem readAttrs_params (env : Env F) (strict : Bool) (ps : List (Param F)) (hn
       rw [hrec]
       simp [htok]
 
+theorem renderParams_cons (p : Param F) (qs : List (Param F)) :
+    renderParams (p :: qs) = p.before ++ renderParams ({ p with before := [] } :: qs) := by
+  cases qs <;> simp [renderParams]
+
+/-- `SDAI_Application_instance::STEPread` on `( parameters )`: every parameter is read to its value, severity NULL, the
+    stream rests right after the closing parenthesis -/
+theorem instSTEPread_params (env : Env F) (strict : Bool) (ps : List (Param F)) (hne : ps ≠ [])
+    (hok : ∀ p ∈ ps, ParamOK env strict p) (l : List Byte) (sk : Bool) (rest : List Byte) :
+    ∃ sk', instSTEPread env strict (ps.map (·.a)) (G l (40 :: (renderParams ps ++ rest)) sk) =
+      .ok ⟨.null, ps.map (·.v), G ((40 :: renderParams ps).reverse ++ l) rest sk'⟩ := by
+  cases ps with
+  | nil => exact absurd rfl hne
+  | cons p qs =>
+    obtain ⟨hred, ⟨c0, u0, htok, hc0, h47⟩, hbef, hread⟩ := hok p (by simp)
+    let p' : Param F := { p with before := [] }
+    have hok' : ∀ x ∈ p' :: qs, ParamOK env strict x := by
+      intro x hx
+      rcases List.mem_cons.mp hx with rfl | hx
+      · exact ⟨hred, ⟨c0, u0, htok, hc0, h47⟩, Seps.blanks [] (by simp), hread⟩
+      · exact hok x (by simp [hx])
+    obtain ⟨sk', hr⟩ := readAttrs_params env strict (p' :: qs) (by simp) hok' (p.before.reverse ++ 40 :: l) 40 sk rest
+    refine ⟨sk', ?_⟩
+    unfold instSTEPread
+    rw [show (G l (40 :: (renderParams (p :: qs) ++ rest)) sk).ws = G l (40 :: (renderParams (p :: qs) ++ rest)) sk
+      from ws_good0 l 40 _ sk (by decide)]
+    simp only [bind, Except.bind, pure, Except.pure]
+    rw [shiftInto_good 0 l 40 _ sk (by decide)]
+    simp only [bne_self_eq_false, Bool.false_eq_true, if_false, List.map_cons, List.isEmpty_cons]
+    -- the token separator after `(` takes the layout in front of the first parameter
+    have hhead : ∃ c1 u1, renderParams (p' :: qs) ++ rest = c1 :: u1 ∧ isSpace c1 = false ∧ c1 ≠ 47 := by
+      cases qs with
+      | nil => exact ⟨c0, u0 ++ (p.after ++ 41 :: rest), by simp [renderParams, p', htok], hc0, h47⟩
+      | cons q qs' =>
+        exact ⟨c0, u0 ++ (p.after ++ 44 :: (renderParams (q :: qs') ++ rest)), by simp [renderParams, p', htok], hc0, h47⟩
+    obtain ⟨c1, u1, h1, hc1, h471⟩ := hhead
+    have e1 : renderParams (p :: qs) ++ rest = p.before ++ c1 :: u1 := by
+      rw [renderParams_cons, List.append_assoc, h1]
+    rw [e1, readTokenSeparator_seps p.before hbef (40 :: l) c1 u1 sk hc1 h471, ← h1]
+    have hmap : (p' :: qs).map (·.a) = p.a :: qs.map (·.a) := rfl
+    have hmapv : (p' :: qs).map (·.v) = p.v :: qs.map (·.v) := rfl
+    rw [hmap, hmapv] at hr
+    rw [hr]
+    simp [renderParams_cons p qs]
+    rfl
+
+/-! ### the parameter kinds proved so far -/
+
+theorem ParamOK.dollar (env : Env F) (strict : Bool) (hcfg : env.lex.criSkipsComments = true) (a : AttrD)
+    (hopt : a.optional = true) (hder : a.derived = false) (hred : a.redefining = false)
+    (before after : List Byte) (hb : Seps before) (ha : Seps after) :
+    ParamOK env strict { a := a, v := nullOf a, tok := [36], before := before, after := after } :=
+  ⟨hred, ⟨36, [], rfl, by decide, by decide⟩, hb, fun l sk d rest hd =>
+    ⟨sk, by simpa using attr_dollar env strict a hopt hder hcfg l sk after ha d rest hd⟩⟩
+
+theorem ParamOK.star (env : Env F) (strict : Bool) (hcfg : env.lex.criSkipsComments = true) (a : AttrD)
+    (hder : a.derived = true) (hred : a.redefining = false)
+    (before after : List Byte) (hb : Seps before) (ha : Seps after) :
+    ParamOK env strict { a := a, v := .derived, tok := [42], before := before, after := after } :=
+  ⟨hred, ⟨42, [], rfl, by decide, by decide⟩, hb, fun l sk d rest hd =>
+    ⟨sk, by simpa using attr_star env strict a hder hcfg l sk after ha d rest hd⟩⟩
+
+theorem ParamOK.integer (env : Env F) (strict : Bool) (hcfg : env.lex.criSkipsComments = true) (a : AttrD)
+    (hty : a.ty = .one .integer) (hder : a.derived = false) (hred : a.redefining = false)
+    (tok : List Byte) (htok : isInteger tok = true) (hlo : longMin ≤ denoteInteger tok) (hhi : denoteInteger tok < longMax)
+    (before after : List Byte) (hb : Seps before) (ha : Seps after) :
+    ParamOK env strict { a := a, v := .one (.atom (.int (denoteInteger tok))), tok := tok, before := before, after := after } := by
+  obtain ⟨c, u, hcu, hcs, h36, _, _⟩ := isInteger_head tok htok
+  have h47 : c ≠ 47 := by
+    intro h; subst h
+    -- `/` is neither a sign nor a digit
+    rw [hcu] at htok
+    revert htok
+    simp [isInteger, splitSign, allDigits, isDigit]
+  exact ⟨hred, ⟨c, u, hcu, hcs, h47⟩, hb, fun l sk d rest hd =>
+    ⟨sk, attr_integer env strict a hty hder hcfg tok htok hlo hhi l sk after ha d rest hd⟩⟩
+
 end StepModel.P21.RLemmas
